@@ -355,6 +355,7 @@ class Finding:
         self.spec = spec
         self.name = name          # theorem / correspondence name
         self.signature = None
+        self.group = None         # cross-case findings: the cases that together form the replay
 
 
 def ddmin(lines, fixed_prefix, fails, budget=150):
@@ -419,6 +420,9 @@ def load_corpus(prop, engine):
                 continue
             cur = None
             for line in open(os.path.join(d, fn), encoding="utf-8", errors="replace").read().split("\n"):
+                if line.startswith("#tags ") and cur is not None:
+                    cur.tags.update(json.loads(line[6:]))
+                    continue
                 if line.startswith("#"):
                     continue
                 if line.startswith("case "):
